@@ -5,6 +5,9 @@
 //! interpreter-owned preemption).
 
 use arrow_array::ffi::{from_ffi, to_ffi, FFI_ArrowArray, FFI_ArrowSchema};
+use arrow_array::ffi_stream::{ArrowArrayStreamReader, FFI_ArrowArrayStream};
+use arrow_array::{RecordBatch, RecordBatchIterator};
+use arrow_schema::{DataType, Field, Schema};
 use arrow_array::types::Int32Type;
 use arrow_array::{make_array, Array, ArrayRef, BooleanArray, Int32Array, PrimitiveArray};
 use arrow_buffer::alloc::Allocation;
@@ -282,7 +285,7 @@ impl World {
     pub fn step(&mut self, ch: &mut dyn Chooser) -> Result<(), Violation> {
         self.steps += 1;
         let n = self.handles.len();
-        let op = if n == 0 { 0 } else { ch.draw(18, "own.op") };
+        let op = if n == 0 { 0 } else { ch.draw(20, "own.op") };
         let pick = |ch: &mut dyn Chooser| ch.draw(n as u64, "own.h") as usize;
         let name: String;
         match op {
@@ -662,6 +665,64 @@ impl World {
                     }
                 }
                 name = "import".into();
+            }
+            16 | 17 => {
+                // C Stream Interface: 1-3 arrays move into a stream of single-column batches, the stream is exported,
+                // imported and drained; each imported batch is a separate buffer object over its exporter's memory
+                let mut moved: Vec<Handle> = Vec::new();
+                for _ in 0..1 + ch.draw(3, "own.stream_n") {
+                    let cands: Vec<usize> = (0..self.handles.len()).filter(|i| matches!(self.handles[*i].kind, Kind::Arr(_))).collect();
+                    if cands.is_empty() {
+                        break;
+                    }
+                    let i = cands[ch.draw(cands.len() as u64, "own.stream_pick") as usize];
+                    moved.push(self.take_handle(i));
+                }
+                if !moved.is_empty() {
+                    let schema = Arc::new(Schema::new(vec![Field::new("a", DataType::Int32, true)]));
+                    let batches: Vec<Result<RecordBatch, arrow_schema::ArrowError>> = moved
+                        .iter()
+                        .map(|h| {
+                            let Kind::Arr(a) = &h.kind else { unreachable!() };
+                            RecordBatch::try_new(schema.clone(), vec![Arc::new(a.clone()) as ArrayRef])
+                        })
+                        .collect();
+                    let stream = FFI_ArrowArrayStream::new(Box::new(RecordBatchIterator::new(batches, schema)));
+                    // the exporter's own handles are gone before the consumer looks at the stream (half of the time)
+                    let early_drop = ch.draw(2, "own.stream_early_drop") == 1;
+                    let mut keep: Vec<Handle> = Vec::new();
+                    let meta: Vec<(usize, usize, usize)> = moved.iter().map(|h| (h.region, h.off, h.len)).collect();
+                    if early_drop {
+                        drop(moved);
+                    } else {
+                        keep = moved;
+                    }
+                    let reader = ArrowArrayStreamReader::try_new(stream).map_err(|e| v("ffi_error", "ffi/stream_import", format!("ArrowArrayStreamReader::try_new failed: {e}")))?;
+                    let mut got = 0usize;
+                    for (b, (region, off, len)) in reader.zip(meta.iter().copied()) {
+                        let b = b.map_err(|e| v("ffi_error", "ffi/stream_next", format!("get_next failed: {e}")))?;
+                        let a = b.column(0).as_any().downcast_ref::<Int32Array>().cloned().ok_or_else(|| v("ffi_error", "ffi/stream_next", "imported column has the wrong type".into()))?;
+                        drop(b);
+                        let want = self.regions[region].bytes[off..off + len].to_vec();
+                        let bytes: Vec<u8> = a.values().iter().flat_map(|x| x.to_le_bytes()).collect();
+                        if bytes != want {
+                            return Err(v("imported_differs", "ffi/stream_roundtrip", format!("batch {got} imported over the C Stream Interface differs from the exported array ({} vs {} bytes)", bytes.len(), want.len())));
+                        }
+                        let nr = self.add_region(want, None);
+                        if !a.values().inner().is_empty() {
+                            self.regions[nr].parent = Some(region);
+                            self.regions[region].live += 1;
+                        }
+                        self.add_handle(Kind::Arr(a), nr, 0, len);
+                        got += 1;
+                    }
+                    if got != meta.len() {
+                        return Err(v("imported_differs", "ffi/stream_roundtrip", format!("{} batches went into the stream, {got} came out", meta.len())));
+                    }
+                    drop(keep);
+                    ch.probe("own.stream_roundtrip");
+                }
+                name = "stream_roundtrip".into();
             }
             14 | 15 => {
                 // BooleanBuffer -> BooleanArray with a validity mask that has its own bit offset
